@@ -13,9 +13,12 @@ reach the OS: the connect-phase timeout and every `settimeout`), `elapsed` (time
 Reading of "unset" (`_DEFAULT_TIMEOUT` / argument omitted): the slot configures no bound of its
 own; the system default (`gdt`) is what is applied when nothing else bounds the wait.
 
-Known finding (see `C19_sentinel_total_typeError`): `total` given *explicitly* as the sentinel
-together with a numeric `connect` makes `connect_timeout` raise `TypeError`; the request-level
-statements therefore carry the hypothesis `t.total ≠ .unset` (an omitted `total` is `None`).
+Repaired defect (formerly `C19_sentinel_total_typeError`): `total` given *explicitly* as the
+sentinel together with a numeric `connect` made `connect_timeout` raise `TypeError`
+(`min(number, _DEFAULT_TIMEOUT)`).  `connect_timeout` now treats a sentinel `total` as "no total",
+like `read_timeout` always did; the statements below hold for every `total` — the former
+hypothesis `t.total ≠ .unset` and the hypotheses about the pool's own `connect_timeout` being
+defined are gone (`C19_sentinel_total_ok`, `connectTimeout_ok`).
 -/
 namespace U3.Props
 open U3 U3.Timeout
@@ -59,56 +62,70 @@ example : (mk (.num 10240) (.num 2048) .unset).toOption.map (·.connect) = some 
 /-! ## the values -/
 
 /-- `connect_timeout` (after `resolve_default_timeout`) is min(connect, total). -/
-theorem C19_connect_eq_min (gdt : TV) (t : Timeout) (h : t.total ≠ .unset) :
+theorem C19_connect_eq_min (gdt : TV) (t : Timeout) :
     ∃ v, connectTimeout t = .ok v ∧
       resolveDefault gdt v =
         (match optMin t.connect.fin t.total.fin with
          | some m => .val m
          | none => resolveDefault gdt t.connect) :=
-  connectTimeout_spec gdt t h
+  connectTimeout_spec gdt t
 
 example : connectTimeout ⟨.val 2048, .none, .val 512, none⟩ = .ok (.val 512) := by rfl
 example : connectTimeout ⟨.unset, .none, .val 512, none⟩ = .ok (.val 512) := by rfl
 example : resolveDefault (.val 3072) <$> connectTimeout ⟨.unset, .none, .none, none⟩ = .ok (.val 3072) := by rfl
+example : connectTimeout ⟨.val 2048, .none, .unset, none⟩ = .ok (.val 2048) := by rfl
+example : resolveDefault (.val 3072) <$> connectTimeout ⟨.none, .none, .unset, none⟩ = .ok .none := by rfl
 
-/-- the known finding at model level: an explicit sentinel as `total` with a numeric `connect` is
-accepted by the constructor, and `connect_timeout` then raises `TypeError` -/
-theorem C19_sentinel_total_typeError (c : Int) (hc : 0 < c) (read : Arg) (hr : read.Valid) :
-    ∃ t, mk .unset (.num c) read = .ok t ∧ connectTimeout t = .error .typeError := by
+/-- the repaired defect (positive counterpart of the former `C19_sentinel_total_typeError`, same
+inputs): an explicit sentinel as `total` with a numeric `connect` is accepted by the constructor,
+and `connect_timeout` is that `connect` — the sentinel configures no total -/
+theorem C19_sentinel_total_ok (c : Int) (hc : 0 < c) (read : Arg) (hr : read.Valid) :
+    ∃ t, mk .unset (.num c) read = .ok t ∧ connectTimeout t = .ok (.val c) := by
   obtain ⟨t, h1, _, h3, h4, _, _⟩ := mk_ok .unset (.num c) read trivial hc hr
   refine ⟨t, h1, ?_⟩
   obtain ⟨cc, r, T, s⟩ := t
   cases T <;> cases cc <;> simp_all [TV.toArg, connectTimeout]
 
+/-- the replay case of the former finding (`Timeout(total=DEFAULT_TIMEOUT, connect=0.5)` on the
+pool, default request): the request succeeds, connects under 0.5 s and awaits the response under
+the system default -/
+example :
+    (mk .unset (.num 512) .unset).toOption.map
+      (fun P => ((urlopen .none P .dflt .noConn 102400 0 0 false).out,
+                 wire (urlopen .none P .dflt .noConn 102400 0 0 false).evs))
+      = some (.ok, [.connect (.val 512), .sockSet .none]) := by
+  decide
+
 /-- `read_timeout` of a clock started at `s`, read at `now`, is
 min(read, max(0, total − (now − s))) — for every `now`, also one before `s`. -/
 theorem C19_read_eq_min_remaining (gdt : TV) (t : Timeout) (hw : t.WF) (s now : Int)
-    (hs : t.start = some s) (h : t.total ≠ .unset) :
+    (hs : t.start = some s) :
     readTimeout gdt t now = .ok
       (match optMin t.read.fin (t.total.fin.map fun T => max 0 (T - (now - s))) with
        | some m => .val m
        | none => resolveDefault gdt t.read) :=
-  readTimeout_spec gdt t hw s now hs h
+  readTimeout_spec gdt t hw s now hs
 
 example : readTimeout .none ⟨.none, .val 5120, .val 2048, some 100⟩ 356 = .ok (.val 1792) := by rfl
 example : readTimeout .none ⟨.none, .val 512, .val 2048, some 100⟩ 356 = .ok (.val 512) := by rfl
 example : readTimeout .none ⟨.none, .unset, .val 2048, some 100⟩ 9000 = .ok (.val 0) := by rfl
+example : readTimeout (.val 3072) ⟨.val 512, .val 5120, .unset, some 100⟩ 9000 = .ok (.val 5120) := by rfl
 example : (⟨.none, .val 5120, .val 2048, some 100⟩ : Timeout).WF := by simp [Timeout.WF, TV.WF]
 
 /-- What one request puts on the wire (`urlopen`, any connection state, any durations): exactly one
 connect-phase value — `create_connection`'s timeout on a new socket, `settimeout` before sending on
 a re-used one — equal to min(connect, total), then either `ReadTimeoutError` with nothing further
 (the remaining budget is 0) or exactly one `settimeout(min(read, total − elapsed))` before the
-response is awaited.  `t` is the Timeout that governs the request, `pv` the pool's own
-`connect_timeout`, only consulted to construct a connection object. -/
+response is awaited.  `t` is the Timeout that governs the request (the pool's own
+`connect_timeout`, only consulted to construct a connection object, never reaches the wire). -/
 theorem C19_request_wire (gdt : TV) (P : Timeout) (arg : TArg) (conn : ConnSt) (now cdur sdur : Int)
-    (cl : Bool) (t : Timeout) (hg : getTimeout P arg = .ok t) (ht : t.total ≠ .unset)
-    (pv : TV) (hp : conn = .noConn → connectTimeout P = .ok pv) :
+    (cl : Bool) (t : Timeout) (hg : getTimeout P arg = .ok t) :
     ∀ r, r = urlopen gdt P arg conn now cdur sdur cl →
     ∀ rt, rt = readSpec gdt t (elapsed conn cdur sdur) →
     (rt = .val 0 → r.out = .exc .readTimeoutError ∧ wire r.evs = [firstEv conn (connectSpec gdt t)]) ∧
     (rt ≠ .val 0 → r.out = .ok ∧ wire r.evs = [firstEv conn (connectSpec gdt t), .sockSet rt]) := by
-  obtain ⟨ctRaw, _, hu⟩ := urlopen_form gdt P arg conn now cdur sdur cl t hg ht pv hp
+  obtain ⟨pv, hpv⟩ := connectTimeout_ok P
+  obtain ⟨ctRaw, _, hu⟩ := urlopen_form gdt P arg conn now cdur sdur cl t hg pv (fun _ => hpv)
   intro r hr rt hrt
   rw [hu] at hr
   subst hrt
@@ -140,11 +157,10 @@ example :
 to `settimeout` is `None` or a number ≥ 0 (given a non-negative system default), for all — also
 negative — durations. -/
 theorem C19_nonneg (gdt : TV) (hgd : gdt.nonneg) (hgu : gdt ≠ .unset) (P : Timeout) (arg : TArg) (conn : ConnSt)
-    (now cdur sdur : Int) (cl : Bool) (t : Timeout) (hg : getTimeout P arg = .ok t)
-    (ht : t.total ≠ .unset) (pv : TV) (hp : conn = .noConn → connectTimeout P = .ok pv) :
+    (now cdur sdur : Int) (cl : Bool) (t : Timeout) (hg : getTimeout P arg = .ok t) :
     ∀ e ∈ wire (urlopen gdt P arg conn now cdur sdur cl).evs, e.value.nonneg ∧ e.value ≠ .unset := by
   have hw := (getTimeout_unstarted hg).2
-  have h := C19_request_wire gdt P arg conn now cdur sdur cl t hg ht pv hp _ rfl _ rfl
+  have h := C19_request_wire gdt P arg conn now cdur sdur cl t hg _ rfl _ rfl
   have hc := connectSpec_nonneg gdt t hw hgd
   have hr := readSpec_nonneg gdt t hw hgd (elapsed conn cdur sdur)
   have hcu : connectSpec gdt t ≠ .unset := by
@@ -171,12 +187,12 @@ theorem C19_nonneg (gdt : TV) (hgd : gdt.nonneg) (hgu : gdt ≠ .unset) (P : Tim
 /-- Never looser than configured (function level): the connect value respects `connect` and
 `total`; the read value of a started clock respects `read` and `total` whenever the clock has not
 run backwards. -/
-theorem C19_never_looser (gdt : TV) (t : Timeout) (hw : t.WF) (h : t.total ≠ .unset)
+theorem C19_never_looser (gdt : TV) (t : Timeout) (hw : t.WF)
     (s now : Int) (hs : t.start = some s) (hn : s ≤ now) :
     (∃ v, connectTimeout t = .ok v ∧ (resolveDefault gdt v).le t.connect ∧ (resolveDefault gdt v).le t.total) ∧
     (∃ v, readTimeout gdt t now = .ok v ∧ v.le t.read ∧ v.le t.total) := by
-  obtain ⟨v, hv, hsp⟩ := connectTimeout_spec gdt t h
-  refine ⟨⟨v, hv, ?_⟩, ⟨_, readTimeout_spec gdt t hw s now hs h, readSpec_le gdt t hw (now - s) (by omega)⟩⟩
+  obtain ⟨v, hv, hsp⟩ := connectTimeout_spec gdt t
+  refine ⟨⟨v, hv, ?_⟩, ⟨_, readTimeout_spec gdt t hw s now hs, readSpec_le gdt t hw (now - s) (by omega)⟩⟩
   rw [hsp]
   exact connectSpec_le gdt t
 
@@ -189,14 +205,13 @@ puts on the wire respects `total`; the connect-phase value also respects `connec
 under which the response is awaited also respects `read`. -/
 theorem C19_never_looser_request (gdt : TV) (P : Timeout) (arg : TArg) (conn : ConnSt)
     (now cdur sdur : Int) (cl : Bool) (hcd : 0 ≤ cdur) (hsd : 0 ≤ sdur)
-    (t : Timeout) (hg : getTimeout P arg = .ok t) (ht : t.total ≠ .unset)
-    (pv : TV) (hp : conn = .noConn → connectTimeout P = .ok pv) :
+    (t : Timeout) (hg : getTimeout P arg = .ok t) :
     ∀ r, r = urlopen gdt P arg conn now cdur sdur cl →
     (∀ e ∈ wire r.evs, e.value.le t.total) ∧
     (∀ e, (wire r.evs)[0]? = some e → e.value.le t.connect) ∧
     (r.out = .ok → ∀ e, (wire r.evs)[1]? = some e → e.value.le t.read) := by
   have hw := (getTimeout_unstarted hg).2
-  have h := C19_request_wire gdt P arg conn now cdur sdur cl t hg ht pv hp _ rfl _ rfl
+  have h := C19_request_wire gdt P arg conn now cdur sdur cl t hg _ rfl _ rfl
   have hc := connectSpec_le gdt t
   have hr := readSpec_le gdt t hw (elapsed conn cdur sdur) (elapsed_nonneg conn cdur sdur hcd hsd)
   have hf : (firstEv conn (connectSpec gdt t)).value = connectSpec gdt t := by
@@ -227,16 +242,16 @@ theorem C19_never_looser_request (gdt : TV) (P : Timeout) (arg : TArg) (conn : C
 /-- A remaining read budget of zero raises `ReadTimeoutError` without touching the socket again —
 and only then: with `total = T` the request is refused iff `T ≤ elapsed`; without a total never. -/
 theorem C19_zero_raises (gdt : TV) (hgd : gdt ≠ .val 0) (P : Timeout) (arg : TArg) (conn : ConnSt)
-    (now cdur sdur : Int) (cl : Bool) (t : Timeout) (hg : getTimeout P arg = .ok t)
-    (ht : t.total ≠ .unset) (pv : TV) (hp : conn = .noConn → connectTimeout P = .ok pv) :
+    (now cdur sdur : Int) (cl : Bool) (t : Timeout) (hg : getTimeout P arg = .ok t) :
     ∀ r, r = urlopen gdt P arg conn now cdur sdur cl →
     ((∃ T, t.total = .val T ∧ T ≤ elapsed conn cdur sdur) →
         r.out = .exc .readTimeoutError ∧ (wire r.evs).length = 1 ∧ r.conn = .noConn) ∧
     (¬ (∃ T, t.total = .val T ∧ T ≤ elapsed conn cdur sdur) → r.out = .ok ∧ (wire r.evs).length = 2) := by
   have hw := (getTimeout_unstarted hg).2
-  have h := C19_request_wire gdt P arg conn now cdur sdur cl t hg ht pv hp _ rfl _ rfl
+  have h := C19_request_wire gdt P arg conn now cdur sdur cl t hg _ rfl _ rfl
   have hz := readSpec_zero_iff gdt t hw hgd (elapsed conn cdur sdur)
-  obtain ⟨ctRaw, _, hu⟩ := urlopen_form gdt P arg conn now cdur sdur cl t hg ht pv hp
+  obtain ⟨pv, hpv⟩ := connectTimeout_ok P
+  obtain ⟨ctRaw, _, hu⟩ := urlopen_form gdt P arg conn now cdur sdur cl t hg pv (fun _ => hpv)
   intro r hr
   subst hr
   constructor
@@ -280,11 +295,12 @@ example : (⟨.val 2048, .val 5120, .val 10240, some 77⟩ : Timeout).WF := by s
 events, the clock and the connection state do not depend on the pool's Timeout at all (which is
 only consulted for the constructor argument of a new connection object, overwritten before use). -/
 theorem C19_request_overrides_pool (gdt : TV) (P₁ P₂ : Timeout) (arg : TArg) (harg : arg ≠ .dflt)
-    (conn : ConnSt) (now cdur sdur : Int) (cl : Bool)
-    (pv₁ pv₂ : TV) (hp₁ : connectTimeout P₁ = .ok pv₁) (hp₂ : connectTimeout P₂ = .ok pv₂) :
+    (conn : ConnSt) (now cdur sdur : Int) (cl : Bool) :
     ∀ r₁ r₂, r₁ = urlopen gdt P₁ arg conn now cdur sdur cl → r₂ = urlopen gdt P₂ arg conn now cdur sdur cl →
     r₁.out = r₂.out ∧ wire r₁.evs = wire r₂.evs ∧ r₁.now = r₂.now ∧ r₁.conn = r₂.conn ∧
     (conn ≠ .noConn → r₁ = r₂) := by
+  obtain ⟨pv₁, hp₁⟩ := connectTimeout_ok P₁
+  obtain ⟨pv₂, hp₂⟩ := connectTimeout_ok P₂
   have hgt : getTimeout P₁ arg = getTimeout P₂ arg := by
     cases arg <;> simp_all [getTimeout]
   have hmr : ∀ a', a' ≠ TArg.dflt → ∀ c, makeRequest gdt P₁ a' c now cdur sdur cl = makeRequest gdt P₂ a' c now cdur sdur cl := by
